@@ -459,6 +459,34 @@ impl BinCtx {
             }
             ["unstall"] => {
                 let n = self.stalled.len();
+                // whatever the server has said on those connections meanwhile (it may have given up on a stalled
+                // upload) is a response like any other
+                let mut answered = 0;
+                let mut without_cc = 0;
+                let mut first = String::from("-");
+                for st in self.stalled.iter_mut() {
+                    let _ = st.set_read_timeout(Some(Duration::from_millis(150)));
+                    let mut buf = vec![0u8; 4096];
+                    if let Ok(k) = st.read(&mut buf) {
+                        if k > 0 {
+                            answered += 1;
+                            let txt = String::from_utf8_lossy(&buf[..k]).to_ascii_lowercase();
+                            let head = txt.split("\r\n\r\n").next().unwrap_or("").to_string();
+                            if !(head.contains("cache-control:") && head.contains("no-store")) {
+                                without_cc += 1;
+                                if first == "-" { first = head.lines().next().unwrap_or("").replace(' ', "_"); }
+                            }
+                        }
+                    }
+                }
+                self.stalled.clear();
+                std::thread::sleep(Duration::from_millis(200));
+                self.h.l1.out.push(format!("OP mark unstall {n} answered={answered} without_cache_control={without_cc} first={first}"));
+                self.h.l1.out.push("R mark".into());
+                return;
+            }
+            ["unstall-old"] => {
+                let n = self.stalled.len();
                 self.stalled.clear();
                 std::thread::sleep(Duration::from_millis(200));
                 self.h.l1.out.push(format!("OP mark unstall {n}"));
